@@ -3,6 +3,8 @@
 package objectz
 
 import (
+	"time"
+
 	"github.com/openziti/storage/ast"
 	"github.com/openziti/storage/verifrt"
 )
@@ -31,6 +33,7 @@ func verifNewObjStore(objs []*vObj) *ObjectStore[*vObj] {
 	st.AddFloat64Symbol("f", func(e *vObj) *float64 { return e.F })
 	st.AddBoolSymbol("b", func(e *vObj) *bool { return e.B })
 	st.AddBoolSymbol("m", func(e *vObj) *bool { return &e.M })
+	st.AddDatetimeSymbol("t", func(e *vObj) *time.Time { return e.T })
 	return st
 }
 
@@ -55,7 +58,16 @@ var vFilters = []vFilter{
 	}},
 	{"b = null", "b", func(o *vObj) bool { return o.B == nil }},
 	{"f != null", "f", func(o *vObj) bool { return o.F != nil }},
+	{"t = null", "t", func(o *vObj) bool { return o.T == nil }},
+	{"t != null and t < datetime(2020-01-02T03:04:05Z)", "t", func(o *vObj) bool {
+		if o.T == nil {
+			return false
+		}
+		return o.T.Before(vT0)
+	}},
 }
+
+var vT0 = time.Date(2020, 1, 2, 3, 4, 5, 0, time.UTC)
 
 type vSort struct {
 	text   string
@@ -69,6 +81,7 @@ var vSorts = []vSort{
 	{" sort by i desc", []verifrt.SortField{{Field: "i", Asc: false}}},
 	{" sort by b desc, i", []verifrt.SortField{{Field: "b", Asc: false}, {Field: "i", Asc: true}}},
 	{" sort by f", []verifrt.SortField{{Field: "f", Asc: true}}},
+	{" sort by t desc", []verifrt.SortField{{Field: "t", Asc: false}}},
 }
 
 func init() {
@@ -111,6 +124,12 @@ func verifC19Objs(n int, need map[string]bool) []*vObj {
 			if verifrt.Choose("b.nil", 2) == 1 {
 				v := verifrt.Bool("b")
 				o.B = &v
+			}
+		}
+		if need["t"] {
+			if verifrt.Choose("t.nil", 2) == 1 {
+				v := verifrt.TimeUTC("t")
+				o.T = &v
 			}
 		}
 		objs[r] = o
